@@ -67,8 +67,56 @@ pub const ASSUMPTIONS: &[&str] = &[
     "PSD cones go through the harness's plain-Rust BLAS/LAPACK shims (self-checking)",
 ];
 
+/// C01, "duality gap below tol_gap_abs or tol_gap_rel": the two gap tolerances set far apart (one of them
+/// unreachable) x objective scales {1, 1e3}, so that absolute and relative gap differ by orders of magnitude
+pub struct GapTols {
+    pub src: Planted,
+}
+impl GapTols {
+    fn decode(&self, id: u64) -> (Prob, SettingsSpec) {
+        let mut d = Digits(id);
+        let prof = 5 + d.take(2) as u8;
+        let sc = *d.pick(&OBJ_SCALES);
+        let (mut p, mut ss) = self.src.case_of(d.0);
+        ss.tol_profile = prof;
+        for v in p.q.iter_mut() {
+            *v *= sc;
+        }
+        for v in p.p.a.iter_mut() {
+            *v *= sc;
+        }
+        (p, ss)
+    }
+}
+impl Space for GapTols {
+    fn name(&self) -> String {
+        format!("gap-tolerances-{}", self.src.name())
+    }
+    fn size(&self) -> u64 {
+        self.src.size() * 2 * OBJ_SCALES.len() as u64
+    }
+    fn describe(&self, id: u64) -> Value {
+        let (p, ss) = self.decode(id);
+        json!({"problem": p.to_json(), "settings": ss.to_json()})
+    }
+    fn bound(&self) -> Value {
+        json!({"gap_tolerance_profiles": ["abs 1e-4 / rel 1e-14", "abs 1e-14 / rel 1e-4"], "objective_scales": OBJ_SCALES})
+    }
+    fn run(&self, id: u64, ctx: &mut Ctx) -> CaseResult {
+        let (p, ss) = self.decode(id);
+        apply_judge(Judge::C01, &p, &ss, ctx)
+    }
+}
+
 pub fn spaces_c01(tier: &str, _seed: u64) -> Vec<Box<dyn Space>> {
     let mut v = sweep_spaces(Judge::C01, tier);
+    {
+        use ConeSpec::*;
+        for (l, n) in [(vec![NN(3), SOC(3)], 3usize), (vec![Zero(1), NN(2), Exp], 3), (vec![SOC(5), NN(1)], 3)] {
+            let xids: Vec<u64> = if tier == "thorough" { vec![0, 5, 13] } else { vec![5] };
+            v.push(Box::new(GapTols { src: Planted::new(l, n, SettingsSpec::lattice(0), Judge::C01, 1, xids, "default") }));
+        }
+    }
     // "whenever a solve ends Solved" includes solves after in-place data updates: the update histories of
     // C08, whose closing solve is judged by the C01 oracle on the final data, belong to this property too
     let maxd = if tier == "thorough" { 3 } else { 2 };
